@@ -374,7 +374,10 @@ def rule_r2_r3(chk: Any, h: Harness, depth: int) -> None:
         else:
             s.call("update_handler_status", "r" + i, **arg)
 
-    def explore(cap: Any, ops: list, depth: int, s: StoreModel, pre: dict, track: dict, trail: list[str], level: int) -> None:
+    def cls_of(feats: frozenset) -> str:
+        return "plain" if not feats else (next(iter(feats)) if len(feats) == 1 else "mixed")
+
+    def explore(cap: Any, ops: list, depth: int, s: StoreModel, pre: dict, track: dict, trail: list[str], level: int, feats: frozenset = frozenset()) -> None:
         nonlocal states
         if level == depth:
             return
@@ -391,11 +394,14 @@ def rule_r2_r3(chk: Any, h: Harness, depth: int) -> None:
             t = len(trail)
             tr = {k: v for k, v in track.items()}
             hist = f"max_completed={cap}: {' ; '.join(trail + [label])}"
+            f2 = feats
             if kind == "del":
                 want = {k: v for k, v in pre.items() if k != i}
                 if post != want:
                     fails.setdefault("delete-exact", f"{hist}: store holds {post}, expected {want}")
                 tr.pop(i, None)
+                if pre.get(i) in TERMINAL:
+                    f2 = feats | {"delete"}
             else:
                 if kind == "up":
                     status = arg
@@ -405,6 +411,8 @@ def rule_r2_r3(chk: Any, h: Harness, depth: int) -> None:
                     status = None  # status update of an unknown run: no-op
                 cand = dict(pre)
                 if status is not None:
+                    if pre.get(i) in TERMINAL:
+                        f2 = feats | ({"repeat"} if status in TERMINAL else {"reopen"})
                     cand[i] = status
                     if status in TERMINAL:
                         first = tr[i][0] if (i in tr and pre.get(i) in TERMINAL) else t
@@ -426,7 +434,7 @@ def rule_r2_r3(chk: Any, h: Harness, depth: int) -> None:
                 else:
                     need = min(cap, len(term))
                     if len(kept_t) < need:
-                        fails.setdefault("retention-count", f"{hist}: {len(term)} completed handler(s) {sorted(term)} with cap {cap}, but only {sorted(kept_t)} retained "
+                        fails.setdefault("retention-count:" + cls_of(f2), f"{hist}: {len(term)} completed handler(s) {sorted(term)} with cap {cap}, but only {sorted(kept_t)} retained "
                                                             f"(evicted {sorted(set(term) - set(kept_t))} although the cap was not exceeded by distinct handlers)")
                     elif need and all(k in tr for k in term):
                         by_first = sorted(term, key=lambda k: tr[k][0], reverse=True)[:need]
@@ -437,7 +445,7 @@ def rule_r2_r3(chk: Any, h: Harness, depth: int) -> None:
                 for k in list(tr):
                     if k not in post:
                         tr.pop(k)
-            explore(cap, ops, depth, s2, post, tr, trail + [label], level + 1)
+            explore(cap, ops, depth, s2, post, tr, trail + [label], level + 1, f2)
 
     # cap 1 needs two ids, cap 2 three (ordering among three completions); caps 0 / None are degenerate and get shorter sequences
     plans = [(1, _evict_ops(["A", "B"], 1), depth), (2, _evict_ops(["A", "B", "C"], 1), depth), (0, _evict_ops(["A", "B"], 1), min(depth, 2)), (None, _evict_ops(["A", "B"], 1), min(depth, 2))]
@@ -448,8 +456,17 @@ def rule_r2_r3(chk: Any, h: Harness, depth: int) -> None:
         _guard("C24.R2", "memory store eviction sequences", lambda: explore(cap, ops, d, h.store("memory", cap), {}, {}, [], 0))
     chk.floor("C24.R2", "store states checked after an operation (max_completed in {0,1,2,None})", states, 900)
     evict = meths.get("_evict_oldest_completed", upd)
-    chk.ob("C24.R2", f"memory store retains min(max_completed, #completed) completed handlers after every upsert (all sequences of <= {depth} operations, caps 0..2)",
-           "retention-count" not in fails, m=m, node=upd, fn=upd, instance="retention-count", reason=fails.get("retention-count", ""))
+    shapes = {
+        "plain": "histories in which no handler is upserted again after completing and no completed handler is deleted",
+        "repeat": "histories with a repeated terminal upsert / status update of an already completed handler",
+        "reopen": "histories in which a completed handler is upserted non-terminal again",
+        "delete": "histories in which a completed handler is deleted",
+        "mixed": "histories combining repeated upserts, re-opening and deletes",
+    }
+    for shape, text in shapes.items():
+        key = "retention-count:" + shape
+        chk.ob("C24.R2", f"memory store retains min(max_completed, #completed) completed handlers after every upsert — {text} (all sequences of <= {depth} operations, caps 0..2)",
+               key not in fails, m=m, node=upd, fn=upd, instance=key, reason=fails.get(key, ""))
     chk.ob("C24.R3", "an upsert never removes a non-terminal handler", "non-terminal-kept" not in fails, m=m, node=evict, fn=evict, instance="non-terminal-kept", reason=fails.get("non-terminal-kept", ""))
     chk.ob("C24.R3", "eviction is oldest-first: the newest max_completed completions (under both readings of 'most recent') stay", "oldest-first" not in fails,
            m=m, node=evict, fn=evict, instance="oldest-first", reason=fails.get("oldest-first", ""))
